@@ -198,6 +198,15 @@ func cmdCheck(args []string) {
 		funcsUnder = append(funcsUnder, name+" (guard clauses only)")
 		sres = append(sres, rs...)
 	}
+	for i := range sres {
+		if sres[i].Status == "" {
+			if sres[i].OK {
+				sres[i].Status = "holds"
+			} else {
+				sres[i].Status = "fails"
+			}
+		}
+	}
 	results := vc.DischargeAll(all, timeout, 14, agree)
 	// an obligation that ran out of time under load is retried alone with three
 	// times the budget before it is reported (a timeout is not a refutation)
@@ -297,7 +306,12 @@ func cmdCheck(args []string) {
 			known++
 			continue
 		}
-		if !inBase[f.name] && !*writeBaseline && len(baseline) > 0 {
+		// a failing obligation of the frames back end is decided, not timed out: it
+		// is reported even when it did not exist on the pinned tree (e.g. the
+		// reads-obligation generated for a struct field added later); 'unbound'
+		// ones (the code shape changed) stay undecided
+		definiteStructural := f.kind == "structural" && f.status == "fails"
+		if !inBase[f.name] && !*writeBaseline && len(baseline) > 0 && !definiteStructural {
 			// an obligation that did not exist on the pinned tree: alarm only with a confirmed replay
 			confirmed, path := tryReplay(f.obl, *prop, replayDir)
 			if confirmed {
